@@ -553,6 +553,10 @@ class MergeEscapeParts(FnCase):
                         agg = m.targets[0].id
         if merged is None or agg is None:
             raise Unsupported('merge_escape_parts: cannot identify the result list / the open group')
+        # representation of the open group: a list of parts (joined when the group closes) or the joined text itself
+        self.group_is_list = any(isinstance(m, ast.Assign) and isinstance(m.targets[0], ast.Name) and m.targets[0].id == agg and isinstance(m.value, (ast.List, ast.ListComp))
+                                 for m in ast.walk(fn)) or any(isinstance(m, ast.Call) and isinstance(m.func, ast.Attribute) and m.func.attr == 'append'
+                                                               and isinstance(m.func.value, ast.Name) and m.func.value.id == agg for m in ast.walk(fn))
         return merged, agg
 
     def cids(self, L):
@@ -565,7 +569,9 @@ class MergeEscapeParts(FnCase):
     def mode_setup(self, L, q, mode, tag):
         from ..engine import fresh
         _m, a = self.cids(L)
-        q.cells[a] = None if mode == 'closed' else self.eng.new_obj(q, 'slist', ('slist', fresh(f'{tag}_group', StrSeq), 'str'))
+        if mode == 'closed': q.cells[a] = None
+        elif self.group_is_list: q.cells[a] = self.eng.new_obj(q, 'slist', ('slist', fresh(f'{tag}_group', StrSeq), 'str'))
+        else: q.cells[a] = SStr(fresh(f'{tag}_group_text', StringSort()))
 
     def seq_of(self, q, v):
         from z3 import Unit, Concat, Empty
@@ -583,6 +589,7 @@ class MergeEscapeParts(FnCase):
         M = self.seq_of(q, mv)
         if av is None: return M, None
         if isinstance(av, Ref): return M, self.seq_of(q, av)
+        if isinstance(av, (str, SStr)): return M, ('text', self.eng.to_str(q, av))
         raise Unsupported(f'merge_escape_parts: open group is {av!r}')
 
     def inv(self, L, q, j):
@@ -593,7 +600,10 @@ class MergeEscapeParts(FnCase):
             pass
         M, A = self.state(q, m_cid, a_cid)
         PS, SEP = self.PS, self.SEP
-        text = flat(SEP, M) if A is None else z3.Concat(flat(SEP, M), flat(SEP, A))
+        if isinstance(A, tuple):            # the open group is kept as its joined text: flat(group) is separator + that text
+            text = z3.Concat(flat(SEP, M), SEP, A[1]); A = None; is_open = True
+        else:
+            text = flat(SEP, M) if A is None else z3.Concat(flat(SEP, M), flat(SEP, A))
         goals = [('argument_not_modified', q.heap[self.parts.oid][1] == PS),
                  ('text_so_far', text == flat(SEP, SubSeq(PS, 0, j)))]
         if A is not None:
@@ -702,9 +712,23 @@ class MergeEscapeParts(FnCase):
         for n in range(0, 6):
             for tup in itertools.product(alpha, repeat=n):
                 cands.append((list(tup), ',', '\\'))
-        for parts, sep, esc in cands:
-            r = show(parts, sep, esc)
-            if r: return r
+        # the search runs the real function: a body that does not terminate on some input must not hang the check (termination is not
+        # part of the contract, so a time-out is `not reproduced`, with the input named)
+        import signal
+        class _Timeout(Exception): pass
+        def _alarm(*_a): raise _Timeout()
+        old_h = signal.signal(signal.SIGALRM, _alarm)
+        cur = None
+        try:
+            signal.alarm(60)
+            for parts, sep, esc in cands:
+                cur = (parts, sep, esc)
+                r = show(parts, sep, esc)
+                if r: return r
+        except _Timeout:
+            return {'status': 'not-reproduced', 'reason': f'native search stopped after 60 s at merge_escape_parts{cur!r} (possibly non-terminating)'}
+        finally:
+            signal.alarm(0); signal.signal(signal.SIGALRM, old_h)
         return {'status': 'not-reproduced', 'tried': len(cands)}
 
     def e2e(self):
